@@ -570,7 +570,11 @@ impl WalkBuilder {
                             }
                         }
                     }
-                    (p.to_path_buf(), Some(WalkEventIter::from(wd)))
+                    let mut it = WalkEventIter::from(wd);
+                    if self.same_file_system {
+                        it.root_device = device_num(p).ok();
+                    }
+                    (p.to_path_buf(), Some(it))
                 }
             })
             .collect::<Vec<_>>()
@@ -1013,7 +1017,7 @@ impl Iterator for Walk {
                         Ok(should_skip) => should_skip,
                     };
                     if should_skip {
-                        self.it.as_mut().unwrap().it.skip_current_dir();
+                        self.it.as_mut().unwrap().skip_current_dir(&ent);
                         // Still need to push this on the stack because
                         // we'll get a WalkEvent::Exit event for this dir.
                         // We don't care if it errors though.
@@ -1052,6 +1056,29 @@ struct WalkEventIter {
     depth: usize,
     it: walkdir::IntoIter,
     next: Option<Result<walkdir::DirEntry, walkdir::Error>>,
+    /// The device of the root path. Set only when traversal is restricted to
+    /// the root's file system.
+    root_device: Option<u64>,
+}
+
+impl WalkEventIter {
+    /// Do not descend into the directory that was just yielded.
+    ///
+    /// When traversal is restricted to one file system, walkdir has already
+    /// declined to descend into a directory on another file system. There is
+    /// nothing to skip then, and `skip_current_dir` would instead drop the
+    /// remaining entries of the parent directory.
+    fn skip_current_dir(&mut self, dent: &DirEntry) {
+        if let Some(root_device) = self.root_device {
+            if dent.depth() > 0
+                && !is_same_file_system(root_device, dent.path())
+                    .unwrap_or(true)
+            {
+                return;
+            }
+        }
+        self.it.skip_current_dir();
+    }
 }
 
 #[derive(Debug)]
@@ -1063,7 +1090,12 @@ enum WalkEvent {
 
 impl From<WalkDir> for WalkEventIter {
     fn from(it: WalkDir) -> WalkEventIter {
-        WalkEventIter { depth: 0, it: it.into_iter(), next: None }
+        WalkEventIter {
+            depth: 0,
+            it: it.into_iter(),
+            next: None,
+            root_device: None,
+        }
     }
 }
 
